@@ -2060,3 +2060,85 @@ func c11R17(c *Ctx, r *Report) {
 	})
 	r.Floor(rule, n, 2, "`return expected` statements in resolveType")
 }
+
+// ---- C09.R11: folded integer arithmetic is reduced to the width of its type --------------------------------------
+
+func init() {
+	lateInits = append(lateInits, func() {
+		props["C09"].Quick = append(props["C09"].Quick, c09R11)
+		props["C04"].Quick = append(props["C04"].Quick, c09R11)
+		props["C08"].Quick = append(props["C08"].Quick, c09R11)
+		props["C09"].Explanation += " (R11) the constant evaluator returns the result of +, -, *, / and % through a helper that is given the static type of the expression and reduces an integer modulo 2^N (two's complement for signed types): what is folded early has the value the run-time arithmetic produces (`K + 10` with a u8 K == 250 is 4, not 260)."
+	})
+}
+
+func c09R11(c *Ctx, r *Report) {
+	const rule = "C09.R11"
+	const pkgCE = "internal/hir/consteval"
+	r.Describe(rule, "hir/consteval.evaluateHIRBinary: in the clauses of PLUS, MINUS, MUL, DIV and MOD every returned value is a call W(…, binary.Type) of a helper that calls GetNumberBitSize, IsSigned and (*big.Int).Mod")
+	fn := c.LookupFn(pkgCE, "evaluateHIRBinary")
+	if !r.Anchor(rule, fn != nil && fn.Decl.Body != nil, "hir/consteval.evaluateHIRBinary") {
+		return
+	}
+	info := fn.Info()
+	var bin *types.Var
+	sig := fn.Obj.Type().(*types.Signature)
+	for i := 0; i < sig.Params().Len(); i++ {
+		if nt := namedOf(sig.Params().At(i).Type()); nt != nil && nt.Obj().Name() == "BinaryExpr" {
+			bin = sig.Params().At(i)
+		}
+	}
+	if !r.Anchor(rule, bin != nil, "evaluateHIRBinary(…, binary *hir.BinaryExpr)") {
+		return
+	}
+	isWrapper := func(f *Fn) bool {
+		if f == nil || f.Decl == nil || f.Decl.Body == nil {
+			return false
+		}
+		got := map[string]bool{}
+		for _, cl := range callsIn(f.Decl.Body, true) {
+			if g := callee(f.Info(), cl); g != nil {
+				got[g.Name()] = true
+			}
+		}
+		return got["GetNumberBitSize"] && got["IsSigned"] && got["Mod"]
+	}
+	arith := map[string]bool{"PLUS_TOKEN": true, "MINUS_TOKEN": true, "MUL_TOKEN": true, "DIV_TOKEN": true, "MOD_TOKEN": true}
+	n := 0
+	ast.Inspect(fn.Decl.Body, func(x ast.Node) bool {
+		cc, ok := x.(*ast.CaseClause)
+		if !ok {
+			return true
+		}
+		name := ""
+		for _, e := range cc.List {
+			if sel, ok := ast.Unparen(e).(*ast.SelectorExpr); ok && arith[sel.Sel.Name] {
+				name = sel.Sel.Name
+			}
+		}
+		if name == "" {
+			return true
+		}
+		for _, st := range cc.Body {
+			ast.Inspect(st, func(y ast.Node) bool {
+				ret, ok := y.(*ast.ReturnStmt)
+				if !ok || len(ret.Results) != 1 {
+					return true
+				}
+				n++
+				good := false
+				if cl, ok := ast.Unparen(ret.Results[0]).(*ast.CallExpr); ok && len(cl.Args) >= 2 {
+					last := cl.Args[len(cl.Args)-1]
+					if sel, ok := ast.Unparen(last).(*ast.SelectorExpr); ok && sel.Sel.Name == "Type" && objOf(info, sel.X) == bin && isWrapper(c.FnOf(callee(info, cl))) {
+						good = true
+					}
+				}
+				r.Check(good, rule, fn.Name(), "case "+name+" returns through the width reduction", c.pos(ret.Pos()),
+					"folded integer arithmetic is computed in unbounded precision: `const K: u8 = 250; let z := K + 10; a[z]` is rejected with `index 260` while the same program with `K` obtained from a call runs and reads a[4]; `let i: i32 = 2147483647; arr[i + i + 4]` likewise")
+				return true
+			})
+		}
+		return true
+	})
+	r.Floor(rule, n, 5, "arithmetic clauses of evaluateHIRBinary")
+}
